@@ -179,10 +179,10 @@ PLANS = {
     "C07": {
         "level": "fault_enumeration",
         "rule": "sim engine, family faults: a small cooperative base scenario (<= 3 streams, bodies <= 3 kB, 1xx, pushes, trailers, pings) is run once fault-free to learn its length in world steps; it is then re-run with the connection ended at a crash point by each ending kind - both directions cut with clean EOF (mid-frame or not), cut with ConnectionReset, client Connection object dropped, server Connection object dropped, abrupt_shutdown(INTERNAL_ERROR), abrupt_shutdown(NO_ERROR), graceful_shutdown - then run to quiescence, then probed (a fresh request through a kept SendRequest clone, a ping on each live connection, every actor continuing its program on the dead connection), then the last handle is dropped. Quick: 8 sampled (kind, step) pairs per base scenario; thorough: additionally every step x every kind for base scenarios of <= 600 steps (exhaustive for that sub-space, counted as exhaustive_sweep_points). Engine raw/fuzz adds fatal protocol errors and write errors, sim non-cooperative scenarios add write-zero / write-error faults at byte offsets. Oracle at quiescence: no API operation outstanding (response futures, informational, push promises, body and trailer reads, capacity and readiness waits, accept, ping, both connection futures), every probe returned, a message whose frames through END_STREAM had all been read before the ending still delivers its full content, no panic. Non-trivial: every execution (an ending struck a running scenario); distinct by fingerprint x crash point.",
-        "quick": [sim("general", 1600, extra=["--family", "faults", "--points", "8"], label="sim-faults"), sim("resets", 400, extra=["--family", "faults", "--points", "8"], label="sim-faults-resets"), sim("general", 3000, coop="no", label="sim-noncoop-io-faults"), raw("fuzz", 3000)],
-        "thorough": [sim("general", 40000, extra=["--family", "faults", "--points", "12"], label="sim-faults"), sim("general", 600, extra=["--family", "faults", "--exhaustive"], label="sim-faults-exhaustive", timeout=3000), sim("general", 80000, coop="no", label="sim-noncoop-io-faults"), raw("fuzz", 80000)],
+        "quick": [sim("general", 3200, extra=["--family", "faults", "--points", "8"], label="sim-faults"), sim("resets", 400, extra=["--family", "faults", "--points", "8"], label="sim-faults-resets"), sim("sendwindow", 2400, extra=["--family", "faults", "--points", "8"], label="sim-faults-small-windows"), sim("general", 3000, coop="no", label="sim-noncoop-io-faults"), raw("fuzz", 3000)],
+        "thorough": [sim("general", 40000, extra=["--family", "faults", "--points", "12"], label="sim-faults"), sim("general", 600, extra=["--family", "faults", "--exhaustive"], label="sim-faults-exhaustive", timeout=3000), sim("sendwindow", 20000, extra=["--family", "faults", "--points", "12"], label="sim-faults-small-windows"), sim("general", 80000, coop="no", label="sim-noncoop-io-faults"), raw("fuzz", 80000)],
         "min_nontrivial": {"quick": 1000, "thorough": 10000},
-        "require_stats": {"quick": {"ending.CutEof": 500, "ending.CutReset": 500, "ending.DropClientConn": 500, "ending.DropServerConn": 500, "ending.AbruptShutdown": 500, "ending.GracefulShutdown": 500, "probe_requests": 1000, "complete_before_ending": 200}, "thorough": {"exhaustive_sweep_points": 10000}},
+        "require_stats": {"quick": {"ending.CutEof": 500, "ending.CutReset": 500, "ending.DropClientConn": 500, "ending.DropServerConn": 500, "ending.AbruptShutdown": 500, "ending.GracefulShutdown": 500, "probe_requests": 1000, "complete_before_ending": 200, "closed_clean_before_ending": 200}, "thorough": {"exhaustive_sweep_points": 10000}},
         "exhaustive_note": "thorough tier only: for base scenarios of <= 600 world steps every step x every ending kind is enumerated (exhaustive_sweep_points); everything else is sampled",
         "assumptions": COMMON_ASSUME + ["abrupt_shutdown is exempt from 'complete messages are still delivered' (its documented contract is that outstanding streams are not handled)", "crash points are scheduler steps of the deterministic world, which include every byte-delivery and every task poll of that execution"],
     },
